@@ -11,6 +11,7 @@ TRUST = ("attosim's network/clock/channel/thread model (Linux TCP semantics as d
 CLAIMED = {
  "C01": ("exploration", "4 C01", "seeded search over framing x chunking x segmentation x caller read schedules with the production response parser running over a simulated socket; oracle = the reference encoder's payload plus the prefix invariant after every read. Sampling gives evidence, not proof; the space (all payloads x all splits x all read sequences) is unbounded so exploration is the honest level."),
  "C02": ("exploration", "4 C02", "seeded fault injection: every run carries exactly one cut (FIN or RST) / read-timeout gap / framing-byte corruption at an offset drawn from targeted classes, followed by 0..4 caller re-reads; oracle = lenient reference decoder on the delivered wire (never-Ok on incomplete framing, prefix invariant at every call, no panic)."),
+ "C03": ("exploration", "4 C03", "seeded sampling of (method, status, Content-Length list, Transfer-Encoding list, trailing bytes, peer closes | stays silent) against the RFC 9112 6.3 decision table; the virtual clock turns 'wrongly expects a body from a silent peer' into an exact zero-time check. The decision is a pure function of the head - stated plainly; the simulator contributes delivery schedule, silent peer and clock."),
  "C19": ("exploration", "4 C19", "seeded search over pause points: the peer goes silent forever after a drawn prefix; virtual time makes 'a read that can be satisfied must not wait' an exact check (t_out == t_in) and 'send returns when the blank line arrives' an exact equality."),
 }
 
